@@ -78,8 +78,8 @@ func runC01(c *an.Ctx, p *an.Prog, thorough bool) {
 		}
 		n := 0
 		var bad []string
-		for _, b := range l.fn.Blocks {
-			for _, in := range b.Instrs {
+		for _, in := range an.DeepInstrs(l.fn) {
+			{
 				ci, ok := in.(ssa.CallInstruction)
 				if !ok || !strings.HasSuffix(an.CalleeName(ci), l.callee) {
 					continue
